@@ -189,14 +189,22 @@ macro_rules! api_table {
     };
 }
 
+// isolated runner processes (harness_iso/): exactly one configuration, see runner.rs
+#[cfg(feature = "isolated_runner")]
+api_table!(iso_build, tf_iso);
+
 // the crate exactly as users build it (default features, no verif_hooks)
+#[cfg(not(feature = "isolated_runner"))]
 api_table!(std_build, twofloat);
 // the same source with default features + verif_hooks (hooks-neutrality differential)
+#[cfg(not(feature = "isolated_runner"))]
 api_table!(hooked_build, tf_hooked);
 // the same source with default-features = false, features = [math_funcs, verif_hooks]
+#[cfg(not(feature = "isolated_runner"))]
 api_table!(nostd_build, tf_nostd);
 
 /// the cfg-selected internal fma of the two instrumented builds
+#[cfg(not(feature = "isolated_runner"))]
 pub mod fma_hooks {
     pub const STD_BACKEND: &str = tf_hooked::verif_hooks::FMA_BACKEND;
     pub const NOSTD_BACKEND: &str = tf_nostd::verif_hooks::FMA_BACKEND;
